@@ -561,6 +561,94 @@ func c20WUnits(thorough bool) []*explore.Unit {
 	return units
 }
 
+// c09WDebugUnits: the state dump against real region clients (their own MarshalJSON reads
+// the connection, the in-flight counter and the done flag): two regions on two servers,
+// both known; one request per region while the first server's connections are reset after
+// the k-th request reached a server, and a thread dumping the state twice.
+func c09WDebugUnits(thorough bool) []*explore.Unit {
+	var units []*explore.Unit
+	b := 1
+	if thorough {
+		b = 2
+	}
+	for _, ev := range []string{"connreset", "split"} {
+		for k := 0; k <= 1; k++ {
+			ev, k := ev, k
+			var errs [2]error
+			var derr error
+			u := &explore.Unit{Name: fmt.Sprintf("wire|event=%s@%d|with a state dump", ev, k), Bound: b, Opt: vrt.Options{MaxSteps: 80000}}
+			u.Body = func() {
+				errs, derr = [2]error{}, nil
+				cl := stdCluster()
+				w := newWorldW(cl, gohbase.FlushInterval(0), gohbase.RpcQueueSize(1))
+				for _, key := range []string{"a", "x"} {
+					if err := doOp(w, "get", "t", key); err != nil {
+						panic("warm-up failed: " + err.Error())
+					}
+				}
+				base := len(cl.Attempts)
+				fin := make(chan int, 4)
+				vrt.GoNamed("h:events", func() {
+					late := false
+					tm := vrt.AfterFunc(time.Hour, func() { late = true })
+					vrt.Await("h:event-trigger", func() bool { return late || len(cl.Attempts)-base >= k })
+					tm.Stop()
+					vrt.HLock()
+					r := regionOf(cl, "t", "a")
+					if ev == "split" {
+						cl.Split(r, "c", r.Server, r.Server)
+					} else {
+						cl.ResetConns(r.Server)
+					}
+					vrt.HUnlock()
+					vrt.Send(fin, -1)
+				})
+				for i, key := range []string{"a", "x"} {
+					i, key := i, key
+					vrt.GoNamed(fmt.Sprintf("h:caller%d", i), func() {
+						errs[i] = doOp(w, "get", "t", key)
+						vrt.Send(fin, i)
+					})
+				}
+				vrt.GoNamed("h:debugstate", func() {
+					for i := 0; i < 2 && derr == nil; i++ {
+						_, derr = gohbase.DebugState(w.client)
+					}
+					vrt.Send(fin, -2)
+				})
+				for i := 0; i < 4; i++ {
+					vrt.Recv(fin)
+				}
+				vrt.Sleep(10 * time.Minute)
+				w.client.Close()
+				vrt.Sleep(10 * time.Minute)
+				for _, c := range cl.WConns {
+					c.Server.Stop = true
+				}
+			}
+			u.Check = func(res *vrt.Result) *explore.Finding {
+				if f := baseFinding(res); f != nil {
+					return f
+				}
+				if res.Deadlock {
+					return &explore.Finding{Class: "request-stranded-after-failures", Msg: fmt.Sprintf("%v", res.Blocked)}
+				}
+				for i, e := range errs {
+					if e != nil {
+						return &explore.Finding{Class: "request-failed-although-cluster-stable", Msg: fmt.Sprintf("caller %d: %v", i, e)}
+					}
+				}
+				if derr != nil {
+					return &explore.Finding{Class: "state-dump-failed", Msg: derr.Error()}
+				}
+				return nil
+			}
+			units = append(units, u)
+		}
+	}
+	return units
+}
+
 // c19WUnits: Close against requests travelling over real region clients. Two families:
 //
 //	close@k   Close starts once k requests have reached a server (it then competes under
